@@ -238,7 +238,7 @@ fn c15_bytes_le5() {
     bytes_case::<5>();
 }
 
-// @harness props=C15 tier=thorough timeout=3000 mem=16
+// @harness props=C15 tier=thorough timeout=3000 mem=16 attempt=1
 // @desc as c15_bytes_le5, length 0..=9
 // @functions <&[u8] as Key>::{compare,separator,min_encoded_key}
 // @bound both keys are arbitrary byte strings of length 0..=9
@@ -346,7 +346,7 @@ fn c15_str_le5() {
     str_case::<5>();
 }
 
-// @harness props=C15 tier=thorough timeout=3600 mem=16 stubbing=1 replay=native
+// @harness props=C15 tier=thorough timeout=3600 mem=16 stubbing=1 replay=native attempt=1
 // @desc as c15_str_le5 with 0..=8 bytes
 // @functions <&str as Key>::{compare,separator,min_encoded_key}, round_up_to_char_boundary
 // @bound both keys are arbitrary well-formed UTF-8 strings of 0..=8 bytes
@@ -516,7 +516,7 @@ fn c15_option_str() {
     option_var_case::<Option<&str>, 4>(true);
 }
 
-// @harness props=C15 tier=thorough timeout=3600 mem=40 stubbing=1 replay=native
+// @harness props=C15 tier=thorough timeout=3600 mem=40 stubbing=1 replay=native attempt=1
 // @desc as c15_option_str with encodings of 1..=5 bytes (tag + one 4-byte character)
 // @functions <Option<&str> as Key>::{compare,separator,min_encoded_key}
 // @bound both encodings arbitrary valid Option<&str> encodings of 1..=5 bytes
@@ -818,7 +818,7 @@ arr2_harness!(c15_array_var_l20_r20, 2, 0, 2, 0);
 // @bound element lengths left (0,3), right (1,1); contents arbitrary
 arr2_harness!(c15_array_var_l03_r11, 0, 3, 1, 1);
 
-// @harness props=C15 tier=thorough timeout=3600 mem=44
+// @harness props=C15 tier=thorough timeout=3600 mem=44 attempt=1
 // @desc as c15_array_var_l20_r20, larger shapes (attempted: exhausted 16 GB in the quick tier)
 // @functions <[T;N] as Key>::{compare,separator}, array_element, array_end_offset
 // @bound element lengths left (2,1) right (2,1); left (2,2) right (1,0); contents arbitrary
